@@ -164,3 +164,9 @@ def drop_exit_facts(guards, loops=()):
             continue
         out.append((c, pol))
     return tuple(out)
+
+
+def iteration_ends(info):
+    """[(kind, State)]: every way an iteration of the loop ends - its continue / break statements and, path by path, the statements after
+    which control falls off the end of the body (kind 'fall-through'; semantically a continue)."""
+    return list(info.get("ends", [])) + [("fall-through", st) for st in info.get("tail_ends", [])]
